@@ -64,6 +64,12 @@ CHECKS["C15"] = dict(engine="purity", design="4 C15", technique="TLA+ model chec
          "regressions SetOrder / SharedSel violate it). Every call-level history TLC enumerates is replayed with real threads in fresh interpreters under 8 (thorough 32) hash seeds, "
          "texts bound to a corpus containing every text found with unmerged equal-span candidates; TLC judges each recorded call against the fresh single-threaded baseline."),
    note="Trusted: TLC + Json; thread interleavings inside a call are free-running (1 us switch interval), not enumerated; editions compared as sets; digest comparison (sha1/64 bit) of serialised results.")
+CHECKS["C03"] = dict(engine="filter", design="4 C03", technique="TLA+ model checking of Filter.tla (exact transcription of filter_citations) + list replay + TLC trace validation of get_citations results and merge histories",
+   text=("Filter.tla transcribes filter_citations (de-dup by span, stable sort by full span, sweep, final sort by span). TLC checks Sorted, Disjoint, NonRefsKept, Idempotent for every "
+         "citation list extraction can produce within bounds (<= 3 non-reference citations with disjoint spans and arbitrary enclosing full spans, <= 2 reference citations inserted "
+         "before their full citation or appended). Every emitted list is rebuilt from real citation objects and filtered once and twice; get_citations runs on citation-dense generated "
+         "documents with both merge histories; TLC judges order / uniqueness / non-overlap / non-references kept / idempotence and checks model = code on every one."),
+   note="Trusted: TLC + Json; the list generation constraints state what extraction can produce (they were derived from the code and are what TLC counterexamples are concretised against).")
 NA_REASON = "check not built yet (work in progress; see DESIGN.md section 10 build order)"
 checks = []
 for p in props:
@@ -91,6 +97,8 @@ m = {"version": 1,
               "serves_properties": ["C13"], "kind_free_text": "regex->NFA translation, TLC product reachability, TLC-judged differential traces"},
              {"name": "purity", "path": "spec/Purity.tla spec/MC_Purity.tla spec/Trace_Purity.tla harness/chk_purity.py harness/drv_purity.py",
               "serves_properties": ["C15"], "kind_free_text": "TLA+ spec, TLC model checking, history replay across processes / hash seeds / threads, TLC trace validation"},
+             {"name": "filter", "path": "spec/Filter.tla spec/MC_Filter.tla spec/Trace_Filter.tla harness/chk_filter.py harness/drv_extract.py harness/gendocs.py",
+              "serves_properties": ["C03"], "kind_free_text": "TLA+ spec, TLC model checking, list replay, TLC trace validation"},
              {"name": "annotate", "path": "spec/Annotate.tla spec/SpanUpdater.tla spec/MC_Annotate.tla spec/MC_SpanUpdater.tla spec/Trace_Annotate.tla spec/Trace_SpanUpdater.tla harness/chk_annotate.py harness/drv_annotate.py",
               "serves_properties": ["C09", "C10", "C11"], "kind_free_text": "TLA+ spec, TLC model checking, configuration replay, TLC trace validation"}],
  "checks": checks,
